@@ -7,7 +7,7 @@ THEOREMS = ["Slock.C14.roundtrip_int", "Slock.C14.roundtrip_str", "Slock.C14.rou
             "Slock.C14.readme_request", "Slock.C14.readme_response"]
 try:  # text part (RESP parser, normalisation, text LOCK/UNLOCK, result rendering): tools/props/c14t.py
     from props import c14t as _c14t
-    THEOREMS = THEOREMS + _c14t.THEOREMS_C14
+    THEOREMS = THEOREMS + _c14t.THEOREMS_C14 + getattr(_c14t, "THEOREMS_INLINE", [])
 except ImportError:
     _c14t = None
 FINISH = {"level": "proof", "assumptions": [
@@ -56,6 +56,8 @@ def run(ctx):
     try:
         from props import c14t
         c14t.run_text(ctx)
+        if hasattr(c14t, "run_inline"):
+            c14t.run_inline(ctx)
     except ImportError:
         pass
     ctx.cov["rule"] = ("per layout: random field values (edge bytes, ascending bytes, random; names well-formed/too long/NUL at edge) through the real "
